@@ -140,6 +140,15 @@ def finish(prop, tier, seed, level, cases, *, rule, monitor_counts=None, floors=
                 known_seen[m] += 1
         else:
             new_viol.append(c)
+    # mechanisms the model tolerated while running (the case went on): they
+    # are findings too -- listed ones are reported as known, others violate
+    for c in cases:
+        for m in c.get("known") or []:
+            if m in open_known:
+                known_seen[m] += 1
+            elif c not in new_viol:
+                c = dict(c, witness={"kind": "tolerated-mechanism-not-listed", "detail": m}, mechanisms=[m])
+                new_viol.append(c)
     distinct = {}
     for c in cases:
         if c.get("nontrivial"):
